@@ -527,6 +527,11 @@ impl Area for Bb {
             s(&["new", "pol 0 ll conn", "add 0 0 0 - - 0", "add 0 1 1 - - 0", "req 0 - bclose", "req 0 - bclose", "req 0 - hold", "req 0 - bclose", "req 0 - close"]),
             // the same behind a TCP listener
             s(&["new", "hc 0 8 1 1", "pol 0 ll conn", "add 0 0 0 - - 0", "add 0 1 1 - - 0", "req 0 - hold", "req 0 - hold", "req 0 - close", "drop 0", "req 0 - close", "rm 0 1", "req 0 - close", "rm 0 0", "req 0 - close"]),
+            // TCP listener + refusing address: connect failure starts the back-off (least-loaded would otherwise
+            // keep choosing the idle refusing backend), counts are released
+            s(&["new", "hc 0 8 1 1", "pol 0 ll conn", "add 0 0 4 - - 0", "add 0 1 1 - - 0", "add 0 2 2 - - 0", "req 0 - hold", "req 0 - hold", "req 0 - close", "req 0 - close", "wait", "req 0 - close", "drop 0", "req 0 - close", "drop 0", "req 0 - close"]),
+            // TCP listener, only refusing addresses: the client connection is closed after the retries
+            s(&["new", "hc 0 8 1 1", "pol 0 rr -", "add 0 0 4 - - 0", "add 0 1 5 - - 0", "req 0 - close", "req 0 - close"]),
             // refusing address: failure, back-off second, retry on the next, used again after the second
             s(&["new", "pol 0 rr -", "add 0 0 4 - - 0", "add 0 1 1 - - 0", "req 0 - close", "req 0 - close", "req 0 - close", "wait", "req 0 - close", "req 0 - close"]),
             // only refusing addresses: 503 after the retries
@@ -574,7 +579,8 @@ impl Area for Bb {
             // marker for the harness: this case runs with a health check configured
             ops.insert(1, "hc 0 9 1 1".into());
         }
-        let tcp = kind < 4 && rng.chance(1, 2);
+        // TCP listeners run the count and the refusing-address scenarios alike (no cookies, no health marker)
+        let tcp = kind < 7 && rng.chance(1, 2);
         if tcp {
             ops.insert(1, "hc 0 8 1 1".into());
         }
